@@ -3,6 +3,7 @@
 #include "models.hpp"
 #include "builders.hpp"
 #include "edits.hpp"
+#include <functional>
 
 namespace sim {
 
@@ -220,6 +221,83 @@ bool applyEdit(NifFile& nif, const json& st, Ctx& ctx, NifFile* other) {
 		nif.SetParentNode(shape, nd);
 		return true;
 	}
+	if (op == "MoveBlocks") {
+		// block-level: another legal on-disk order (other exporters write blocks in any order). The relative order of the
+		// node blocks is kept, so "the root is the first node" keeps selecting the same block.
+		auto& hdr = nif.GetHeader();
+		uint32_t n = hdr.GetNumBlocks();
+		if (n < 2) return false;
+		std::vector<uint32_t> nonNodes;
+		for (uint32_t i = 0; i < n; i++)
+			if (!hdr.GetBlock<NiNode>(i)) nonNodes.push_back(i);
+		if (nonNodes.empty()) return false;
+		std::vector<uint32_t> seq(n); // seq[newPos] = oldIndex
+		for (uint32_t i = 0; i < n; i++) seq[i] = i;
+		std::string mode = jstr(st, "mode", (salt & 1) ? "front" : "swap");
+		if (mode == "front") {
+			uint32_t b = nonNodes[r.below(uint32_t(nonNodes.size()))];
+			seq.erase(seq.begin() + b);
+			seq.insert(seq.begin(), b);
+			ctx.probe("edit_move_block_to_front");
+		}
+		else {
+			for (int k = 0; k < 1 + int(salt % 3); k++) {
+				uint32_t a = nonNodes[r.below(uint32_t(nonNodes.size()))], b = nonNodes[r.below(uint32_t(nonNodes.size()))];
+				std::swap(seq[a], seq[b]);
+			}
+			ctx.probe("edit_swap_blocks");
+		}
+		std::vector<uint32_t> newOrder(n); // newOrder[oldIndex] = newIndex
+		for (uint32_t i = 0; i < n; i++) newOrder[seq[i]] = i;
+		hdr.SetBlockOrder(newOrder);
+		return true;
+	}
+	if (op == "UnlinkFromNode") {
+		// block-level: empties one reference held by a node (child, extra data, collision object, controller, property):
+		// the subtree behind it becomes loose, as after unlinking it in an editor
+		auto nodes = nif.GetNodes();
+		std::vector<NiRef*> cands;
+		for (auto nd : nodes) {
+			std::set<NiRef*> refs;
+			nd->GetChildRefs(refs);
+			std::vector<NiRef*> v;
+			for (auto x : refs) if (!x->IsEmpty()) v.push_back(x);
+			std::sort(v.begin(), v.end(), [](NiRef* a, NiRef* b) { return a->index < b->index; });
+			cands.insert(cands.end(), v.begin(), v.end());
+		}
+		if (cands.empty()) return false;
+		cands[salt % cands.size()]->Clear();
+		ctx.probe("edit_unlink_from_node");
+		return true;
+	}
+	if (op == "RebuildRefArray") {
+		// block-level: a reference list is emptied and filled again with the same entries (what SetShapeBoneIDList and
+		// similar helpers do)
+		auto& hdr = nif.GetHeader();
+		std::vector<std::function<void()>> rebuild, rebuildSkin;
+		auto consider = [&](auto& arr, bool skin = false) {
+			if (arr.GetSize() == 0) return;
+			auto* pa = &arr;
+			(skin ? rebuildSkin : rebuild).push_back([pa]() {
+				std::vector<uint32_t> idx;
+				pa->GetIndices(idx);
+				pa->Clear();
+				for (auto i : idx) pa->AddBlockRef(i);
+			});
+		};
+		for (uint32_t i = 0; i < hdr.GetNumBlocks(); i++) {
+			if (auto nd = hdr.GetBlock<NiNode>(i)) consider(nd->childRefs);
+			if (auto av = hdr.GetBlock<NiAVObject>(i)) { consider(av->extraDataRefs); consider(av->propertyRefs); }
+			if (auto si = hdr.GetBlock<NiSkinInstance>(i)) consider(si->boneRefs, true);
+			if (auto bi = hdr.GetBlock<BSSkinInstance>(i)) consider(bi->boneRefs, true);
+		}
+		if (!rebuildSkin.empty() && (rebuild.empty() || jbool(st, "prefer_skin", false))) rebuild.swap(rebuildSkin);
+		else rebuild.insert(rebuild.end(), rebuildSkin.begin(), rebuildSkin.end());
+		if (rebuild.empty()) return false;
+		rebuild[salt % rebuild.size()]();
+		ctx.probe("edit_rebuild_ref_array");
+		return true;
+	}
 	if (op == "PrettySort") { nif.PrettySortBlocks(); return true; }
 	if (op == "Optimize") { nif.Optimize(); return true; }
 	if (op == "TrimTexturePaths") { nif.TrimTexturePaths(); return true; }
@@ -245,7 +323,7 @@ const std::vector<std::string>& editOps() {
 	static std::vector<std::string> v = {"DeleteVerts", "AddNode", "DeleteNode", "DeleteShape", "RenameShape", "SetTexture", "OffsetShape", "MoveVertex",
 										 "SetNodeTransform", "SetNodeName", "AddExtraData", "AddLooseBlock", "CloneShape", "AddShape", "CalcNormals", "CalcTangents",
 										 "InvertUVs", "UpdateSkinPartitions", "DeleteSkinning", "DeleteShader", "AlphaProperty", "SetParentNode", "PrettySort",
-										 "Optimize", "TrimTexturePaths", "FixBSXFlags", "FixShaderFlags", "DeleteUnreferenced", "OptimizeFor", "ShapeSetTriangles", "ShapeSetBounds", "ShapeToggleColors", "ShapeUpdateBounds", "SetTexturePath", "ReplaceWithClone"};
+										 "Optimize", "TrimTexturePaths", "FixBSXFlags", "FixShaderFlags", "DeleteUnreferenced", "OptimizeFor", "ShapeSetTriangles", "ShapeSetBounds", "ShapeToggleColors", "ShapeUpdateBounds", "SetTexturePath", "ReplaceWithClone", "MoveBlocks", "UnlinkFromNode", "RebuildRefArray"};
 	return v;
 }
 
